@@ -112,6 +112,26 @@ def ukf(env):
     env.eq('posterior covariance is the Kalman posterior covariance', Pp, Ps)
 
 
+@obligation('C13.UKF.parameter_k', functions=[f'{UKFM}:UKF.forward', f'{UKFM}:UKF.sigma_weight_points'], tol=1e-7, timeout=300, max_paths=16)
+def ukf_k(env):
+    """the sigma-point parameter the caller passes is the one both sigma sets are built with - for every k > -n, k = 0 (centre weight 0,
+    int or float) included; only k = None selects the documented default 3 - n"""
+    uk = env.load(UKFM); T = env.T
+    model, sysm, x, u, y, P, Qn, Rn = setup(env)
+    n = 2
+    ksym = env.scalar('kappa_plus_n', positive=True, regimes=('generic',))[0] - 2
+    zero_f = (ksym * 0) if env.sym else 0.0
+    for label, given, expect in (('k = 0 (int)', 0, 0), ('k = 0.0', zero_f, 0), ('symbolic k', ksym, ksym), ('k = 1', 1, 1), ('k = None', None, 3 - n)):
+        f = uk.UKF(model, Q=Qn, R=Rn)
+        seen = []
+        orig = f.sigma_weight_points
+        object.__setattr__(f, 'sigma_weight_points', lambda x_, P_, k_, orig=orig, seen=seen: (seen.append(k_), orig(x_, P_, k_))[1])
+        f(x, y, u, P, k=given)
+        env.holds(f'{label}: sigma points are generated (prediction and update)', len(seen) >= 1)
+        for i, kv in enumerate(seen):
+            env.eq(f'{label}: sigma set {i + 1} is built with the requested parameter', kv if not isinstance(kv, (int, float)) else T.tensor(kv) * (1 if not env.sym else 1), expect)
+
+
 @obligation('C13.covariance_structure', functions=[f'{UKFM}:UKF.compute_cov', f'{PFM}:PF.compute_cov'])
 def covs(env):
     """Q + sum_i w_i e_i e_i^T : v^T P v = v^T Q v + sum_i w_i (e_i . v)^2  (>= 0 for w >= 0, Q PSD); symmetric"""
@@ -221,6 +241,93 @@ def kalman_numeric(rng, tier):
     for f in fails: uniq.setdefault((f['clause'], f['signature']), f)
     return dict(evaluations=evals, distinct_nontrivial=evals, rule='random linear systems, state/input/observation dims 1..6, covariances with eigenvalue spread 1..1e6; distinct by seed',
                 bound='dims <= 6, spread <= 1e6', failures=list(uniq.values())[:8], samples=samples)
+
+
+@obligation('C13.PF.particle_model', functions=[f'{PFM}:PF.forward', f'{PFM}:PF.generate_particles', f'{PFM}:PF.relative_likelihood', f'{PFM}:PF.resample_particles',
+                                                 f'{PFM}:PF.compute_cov'], max_paths=64, timeout=300, tol=1e-7,
+            note='random sources by contract: N(loc, cov).sample = loc + Z chol(cov)^T and randn = Z with Z standard normal, rand = r uniform on (0,1), '
+                 'softmax = abstract positive weights summing to one (its argument is checked); N = 2 particles, n = 2 states, linear f and g')
+def pf_model(env):
+    """the deterministic structure of one PF step, for ALL values of the random draws: the estimator is the documented particle model"""
+    pfm = env.load(PFM); T = env.T
+    model, sysm, x, u, y, P, Qn, Rn = setup(env)
+    A_, B_, C_, D_, c1, c2 = sysm
+    N, n = 2, 2
+    Z = T.stack([env.vec(f'z{i}_', n, regimes=('generic',)) for i in range(N)], 0)              # standard normal draws
+    r = T.cat([env.scalar(f'r{i}_', positive=True, regimes=('generic', 'small')) for i in range(N)], -1)       # uniform draws
+    env.assume('uniform draws lie in (0, 1)', r < 1)
+    rec = {}
+    chol = T.linalg.cholesky
+    class MVN:
+        def __init__(self, loc, covariance_matrix=None, **k):
+            self.loc, self.cov = loc, covariance_matrix
+            rec.setdefault('mvn', []).append((loc, covariance_matrix))
+        def sample(self, size=()):
+            rec['sample_size'] = tuple(size)
+            return self.loc + Z @ chol(self.cov).transpose(-1, -2)
+        def log_prob(self, v):
+            d = v - self.loc
+            q = (d.unsqueeze(-2) @ T.linalg.inv(self.cov) @ d.unsqueeze(-1)).squeeze(-1).squeeze(-1)
+            rec['log_prob'] = -q / 2 - (T.log(T.linalg.det(self.cov)) + self.cov.shape[-1] * 1.8378770664093453) / 2 if not env.sym else -q / 2 + rec['K']
+            return rec['log_prob']
+    if env.sym:
+        rec['K'] = env.scalar('lognorm_', regimes=('generic',))[0]           # the normalising constant, the same for every particle
+        qw = T.cat([env.scalar(f'q{i}_', positive=True, regimes=('generic',)) for i in range(N - 1)], -1)
+        env.assume('weights are positive and sum to one', qw.sum() < 1)
+        qs = T.cat([qw, (1 - qw.sum()).reshape(1)], -1)
+        def softmax(inp, dim=-1, **k):
+            rec['softmax_in'], rec['softmax_dim'] = inp, dim
+            return qs
+    else:
+        real_softmax = pfm.F.softmax
+        def softmax(inp, dim=-1, **k):
+            rec['softmax_in'], rec['softmax_dim'] = inp, dim
+            rec['q'] = real_softmax(inp, dim=dim)
+            return rec['q']
+    env.stub(pfm, 'MultivariateNormal', MVN)
+    env.stub(pfm.F, 'softmax', softmax)
+    env.stub(pfm.torch, 'randn', lambda *size, **k: Z.reshape(*size) if tuple(size) != (N, n) and len(size) > 1 else Z)
+    env.stub(pfm.torch, 'rand', lambda *size, **k: r)
+    seen = {}
+    st_real, ob_real = type(model).state_transition, type(model).observation
+    class Rec(type(model)):
+        def state_transition(self, state, input, t=None):
+            out = st_real(self, state, input, t)
+            if state.dim() == 2: seen.setdefault('f_in', state); seen.setdefault('f_out', out)      # the call on the particle set (set_refpoint calls it on x)
+            return out
+        def observation(self, state, input, t=None):
+            if state.dim() == 2: seen.setdefault('g_in', state)
+            return ob_real(self, state, input, t)
+    f = pfm.PF(Rec(), Q=Qn, R=Rn, particles=N)
+    xe, Pe = f(x, y, u, P)
+    q = qs if env.sym else rec['q']
+    # 1. prior particles: an affine image x + Z M of the standard normal draws with M^T M = n P, i.e. distributed as N(x, nP)
+    xp = seen['f_in']
+    Lp = chol(n * P)
+    env.eq('prior particles are x + Z L^T with L L^T = n P  (the documented prior N(x, nP))', xp, x + Z @ Lp.transpose(-1, -2))
+    env.eq('... L L^T = n P', Lp @ Lp.transpose(-1, -2), n * P)
+    # 2. propagation through f
+    xs = (A_ @ xp.unsqueeze(-1)).squeeze(-1) + (B_ @ u.unsqueeze(-1)).squeeze(-1) + c1
+    env.eq('particles are propagated through the transition function', seen['f_out'], xs)
+    env.eq('the observation function is evaluated at the propagated particles', seen['g_in'], xs)
+    # 3. weights: Gaussian likelihood of y at the observation of the PROPAGATED particles
+    ye = (C_ @ xs.unsqueeze(-1)).squeeze(-1) + (D_ @ u.unsqueeze(-1)).squeeze(-1) + c2
+    d = y - ye
+    ll = -(d * d).sum(-1) / (2 * Rn[0, 0])
+    si = rec['softmax_in']
+    env.eq('log-weights differ between particles by the Gaussian log-likelihood of y at the propagated particles', si[0] - si[1], ll[0] - ll[1])
+    env.holds('weights are normalised over the particle axis', rec['softmax_dim'] in (-1, 0) and tuple(si.shape) == (N,))
+    env.assume('no uniform draw falls exactly on a boundary of the weight partition (probability zero; either side is a valid inverse CDF)', (r - q[0]).abs() > 0)
+    # 4. resampling by the inverse CDF of the weights: draw k takes particle j with  sum_{m<j} q_m <= r_k <= sum_{m<=j} q_m
+    idx = [0 if bool(r[k] <= q[0]) else 1 for k in range(N)]
+    xr = T.stack([xs[j] for j in idx], 0)
+    # 5. estimate and covariance
+    mean = xr.mean(0)
+    env.eq('estimate is the mean of the resampled propagated particles', xe, mean)
+    ex = xr - mean
+    cov = Qn + (ex.unsqueeze(-1) @ ex.unsqueeze(-2)).mean(0)
+    env.eq('covariance is Q + the sample covariance of the resampled particles', Pe, cov)
+    env.eq('covariance is symmetric', Pe, Pe.transpose(-1, -2))
 
 
 @bounded('C13.PF.monte_carlo', functions=[f'{PFM}:PF.forward', f'{PFM}:PF.generate_particles', f'{PFM}:PF.relative_likelihood', f'{PFM}:PF.resample_particles'])
